@@ -731,7 +731,9 @@ class Netlist(NetlistOpsMixin, NetlistMixin, NetlistSimplifyMixin):
 
         # TODO.  Copy or share?
         context = self.context
-        return self.__class__(context=context, kind=self.kind)
+        new = self.__class__(context=context, kind=self.kind)
+        new.solver_method = self.solver_method
+        return new
 
     def prune(self, name):
         """Prune specified element by name or elements specified in list.
